@@ -14,6 +14,8 @@ BUILDER_TRAITS = [
     "crate::backend::EscapeBuilder",
     "crate::backend::PrecedenceDecider",
     "crate::backend::OperLeftAssocDecider",
+    "crate::extension::postgres::types::TypeBuilder",
+    "crate::extension::postgres::extension::ExtensionBuilder",
 ]
 
 BACKENDS = {
